@@ -307,7 +307,8 @@ PARAMS = {
 }
 SERVER_ONLY = {0x00, 0x02, 0x0d, 0x10}
 CLIENT_ONLY = {0xffee}
-BOUNDS = {0x03: (1200, 65527), 0x0a: (0, 20), 0x0e: (2, VARINT_MAX)}
+BOUNDS = {0x03: (1200, 65527), 0x08: (0, (1 << 60) - 1), 0x09: (0, (1 << 60) - 1), 0x0a: (0, 20), 0x0b: (0, 16383),
+          0x0e: (2, VARINT_MAX)}
 REQUIRED = {0: [0x0f], 1: [0x0f, 0x00]}
 
 
@@ -349,8 +350,6 @@ def rand_param_value(rng, pid):
         if pid in BOUNDS:
             lo, hi = BOUNDS[pid]
             return rng.choice([lo, hi, lo + 1, max(lo, hi - 1), rng.randint(lo, min(hi, lo + 100000))])
-        if pid in (0x08, 0x09):
-            return rng.choice([0, 1, 100, (1 << 60) - 1, rand_varint(rng) % (1 << 60)])
         return rand_varint(rng)
     if ty == P_BOOL:
         return None
